@@ -275,6 +275,137 @@ func c20ScannerTable(s *source, rel string) ([]string, bool) {
 	return out, len(out) > 0
 }
 
+// c20Full renders a function body statement by statement (source text with collapsed white space, control
+// structures as header / body / "}"). Used for the small methods in which every token matters: which field a
+// HasLeadingCommentGroup / CommentGroup / End / Pos method looks at, the line and comment logic of
+// Writer.write, transfer*TokenNode, Parser.nextToken and the scanner's comment functions.
+func c20Full(s *source, fd *ast.FuncDecl) []string {
+	var out []string
+	var walkStmt func(st ast.Stmt)
+	walkBlock := func(b *ast.BlockStmt) {
+		if b == nil {
+			return
+		}
+		for _, st := range b.List {
+			walkStmt(st)
+		}
+	}
+	clause := func(cc ast.Stmt) {
+		c := cc.(*ast.CaseClause)
+		var es []string
+		for _, e := range c.List {
+			es = append(es, s.src(e))
+		}
+		if c.List == nil {
+			out = append(out, "default:")
+		} else {
+			out = append(out, "case "+strings.Join(es, ", ")+":")
+		}
+		for _, b := range c.Body {
+			walkStmt(b)
+		}
+	}
+	walkStmt = func(st ast.Stmt) {
+		switch x := st.(type) {
+		case *ast.IfStmt:
+			h := "if "
+			if x.Init != nil {
+				h += s.src(x.Init) + "; "
+			}
+			out = append(out, h+s.src(x.Cond)+" {")
+			walkBlock(x.Body)
+			if x.Else != nil {
+				out = append(out, "} else {")
+				switch el := x.Else.(type) {
+				case *ast.BlockStmt:
+					walkBlock(el)
+				default:
+					walkStmt(el)
+				}
+			}
+			out = append(out, "}")
+		case *ast.ForStmt:
+			h := "for "
+			if x.Init != nil {
+				h += s.src(x.Init) + "; "
+			}
+			if x.Cond != nil {
+				h += s.src(x.Cond)
+			}
+			if x.Post != nil {
+				h += "; " + s.src(x.Post)
+			}
+			out = append(out, h+" {")
+			walkBlock(x.Body)
+			out = append(out, "}")
+		case *ast.RangeStmt:
+			k, v := "_", "_"
+			if x.Key != nil {
+				k = s.src(x.Key)
+			}
+			if x.Value != nil {
+				v = s.src(x.Value)
+			}
+			out = append(out, "range "+k+", "+v+" := "+s.src(x.X)+" {")
+			walkBlock(x.Body)
+			out = append(out, "}")
+		case *ast.SwitchStmt:
+			tag := ""
+			if x.Tag != nil {
+				tag = s.src(x.Tag)
+			}
+			out = append(out, "switch "+tag+" {")
+			for _, cc := range x.Body.List {
+				clause(cc)
+			}
+			out = append(out, "}")
+		case *ast.TypeSwitchStmt:
+			out = append(out, "typeswitch "+s.src(x.Assign)+" {")
+			for _, cc := range x.Body.List {
+				clause(cc)
+			}
+			out = append(out, "}")
+		case *ast.BlockStmt:
+			walkBlock(x)
+		default:
+			out = append(out, s.src(st))
+		}
+	}
+	walkBlock(fd.Body)
+	return out
+}
+
+func (e *emitter) c20FullDef(s *source, rel, goName, lean string) {
+	fd := s.findFunc(rel, goName)
+	if fd == nil {
+		e.errors = append(e.errors, "function "+goName+" not found in "+rel)
+		e.stringList(lean, "MISSING: "+goName+" in "+rel, []string{"MISSING"})
+		return
+	}
+	e.stringList(lean, "body of `"+goName+"` in "+rel, c20Full(s, fd))
+}
+
+// c20Accessors: the comment / position accessors of one ast node type, one block per method that exists.
+var c20AccessorNames = []string{"HasHeadCommentGroup", "HasLeadingCommentGroup", "CommentGroup", "End", "Pos",
+	"ContainsStruct", "IsAnonymous", "IsZeroString", "Equal", "Valid", "List", "Join"}
+
+func (e *emitter) c20Accessors(s *source, rel, recv, lean string) {
+	var out []string
+	for _, m := range c20AccessorNames {
+		fd := s.findFunc(rel, recv+"."+m)
+		if fd == nil {
+			continue
+		}
+		out = append(out, m+" {")
+		out = append(out, c20Full(s, fd)...)
+		out = append(out, "}")
+	}
+	if len(out) == 0 {
+		e.errors = append(e.errors, "no accessor of "+recv+" found in "+rel)
+	}
+	e.stringList(lean, "comment / position accessors of `"+recv+"` in "+rel, out)
+}
+
 func init() {
 	register("C20", func(s *source, e *emitter) {
 		tok := c20Dir + "token/token.go"
@@ -316,7 +447,7 @@ func init() {
 			e.c20Skel(s, prs, "Parser."+fn, "p_"+fn, c20ParserCall)
 		}
 		type fm struct{ file, recv string }
-		for _, f := range []fm{
+		fms := []fm{
 			{"ast/ast.go", "AST"}, {"ast/ast.go", "TokenNode"},
 			{"ast/syntaxstatement.go", "SyntaxStmt"}, {"ast/infostatement.go", "InfoStmt"},
 			{"ast/importstatement.go", "ImportLiteralStmt"}, {"ast/importstatement.go", "ImportGroupStmt"},
@@ -332,9 +463,42 @@ func init() {
 			{"ast/servicestatement.go", "ServiceItemStmt"}, {"ast/servicestatement.go", "RouteStmt"},
 			{"ast/servicestatement.go", "PathExpr"}, {"ast/servicestatement.go", "BodyStmt"},
 			{"ast/servicestatement.go", "BodyExpr"},
-		} {
+		}
+		for _, f := range fms {
 			e.c20Skel(s, c20Dir+f.file, f.recv+".Format", "f_"+f.recv, c20FormatCall)
 		}
+		// every method of every node type that Writer.write consults (HasHeadCommentGroup, HasLeadingCommentGroup,
+		// Pos, End; Format is tied above), and what they delegate to
+		for _, f := range append([]fm{{"ast/comment.go", "CommentStmt"}, {"ast/comment.go", "CommentGroup"},
+			{"ast/typestatement.go", "AnyDataType"}, {"ast/typestatement.go", "BaseDataType"},
+			{"ast/typestatement.go", "InterfaceDataType"}}, fms...) {
+			if f.recv == "AST" {
+				continue
+			}
+			e.c20Accessors(s, c20Dir+f.file, f.recv, "acc_"+f.recv)
+		}
+		for _, fn := range []string{"AnyDataType.Format", "BaseDataType.Format", "InterfaceDataType.Format", "CommentStmt.Format", "TokenNode.Format"} {
+			file := "ast/typestatement.go"
+			switch fn {
+			case "CommentStmt.Format":
+				file = "ast/comment.go"
+			case "TokenNode.Format":
+				file = "ast/ast.go"
+			}
+			e.c20FullDef(s, c20Dir+file, fn, "full_"+strings.ReplaceAll(fn, ".", "_"))
+		}
+		for _, fn := range []string{"transfer2TokenNode", "transferNilInfixNode", "transferTokenNode", "Writer.write", "Writer.Write",
+			"Writer.NewLine", "ignoreHeadComment", "ignoreLeadingComment", "ignoreComment", "withTokenNodePrefix",
+			"expectSameLine", "expectIndentInfix", "NewWriter", "NewBufferWriter"} {
+			e.c20FullDef(s, c20Dir+"ast/writer.go", fn, "full_"+strings.ReplaceAll(fn, ".", "_"))
+		}
+		for _, fn := range []string{"Parser.nextToken", "Parser.curTokenNode", "Parser.getNode", "Parser.init"} {
+			e.c20FullDef(s, prs, fn, "full_"+strings.ReplaceAll(fn, ".", "_"))
+		}
+		for _, fn := range []string{"Scanner.scanLineComment", "Scanner.scanDocument", "Scanner.skipWhiteSpace", "Scanner.isWhiteSpace"} {
+			e.c20FullDef(s, c20Dir+"scanner/scanner.go", fn, "full_"+strings.ReplaceAll(fn, ".", "_"))
+		}
+		e.c20FullDef(s, c20Dir+"format/format.go", "Source", "full_fmt_Source")
 		e.c20Skel(s, c20Dir+"ast/writer.go", "Writer.write", "w_write", c20FormatCall)
 		e.c20Skel(s, c20Dir+"ast/writer.go", "Writer.WriteText", "w_WriteText", c20FormatCall)
 		e.c20Skel(s, c20Dir+"format/format.go", "Source", "fmt_Source", func(n string) bool {
